@@ -2,6 +2,7 @@ use crate::engine::report::{Tier, Violation};
 use std::cell::Cell;
 
 pub mod common;
+pub mod c02;
 pub mod c03;
 pub mod c04;
 pub mod c06;
@@ -34,6 +35,7 @@ pub fn guarded<T>(f: impl FnOnce() -> T) -> Result<T, String> {
 
 pub fn run(id: &str, tier: Tier) -> i32 {
     match id {
+        "C02" => c02::run(tier),
         "C03" => c03::run(tier),
         "C04" => c04::run(tier),
         "C06" => c06::run(tier),
@@ -49,6 +51,7 @@ pub fn run(id: &str, tier: Tier) -> i32 {
 pub fn replay(id: &str, file: &serde_json::Value) -> i32 {
     let case = &file["case"];
     let f: fn(&serde_json::Value) -> Result<(), Violation> = match id {
+        "C02" => c02::replay,
         "C03" => c03::replay,
         "C04" => c04::replay,
         "C06" => c06::replay,
